@@ -28,7 +28,7 @@ STRS = ['"s"', '""', '"a b"', '"(x)"', '"a\\"b"', '"~1"', '"a/b:c"', '"#"', '"\\
         '"a \u201cb, c\u201d d"', '"t\tu"', '"x\\by\\fz"']
 ROLES = [':ARG0', ':ARG1', ':ARG0-of', ':op1', ':op2', ':op10', ':mod', ':', ':polarity', ':x-of-of', ':TOP', ':domain-of', ':quant',
          ':instance', ':ARG0-OF', ':PART-Of', ':op01', ':op003']
-ALNS = ['~1', '~e.2', '~e.2,3', '~E.1', '~x7', '~0,0', '~\xe9.1', '~\xdf2']
+ALNS = ['~1', '~e.2', '~e.2,3', '~E.1', '~x7', '~0,0', '~1,23', '~e.9,10,11', '~12,3,45', '~\xe9.1', '~\xdf2']
 SPACERS = [' ', '  ', '\n', '\t', ' \n  ', '\r\n', '\v', '\f', '']
 
 
@@ -159,6 +159,8 @@ def random_connected_graph(rng, nvars=None, nextra=None, roles=None, consts=None
     triples = []
     for i, v in enumerate(V):
         concept = rng.choice(['x', 'y', None, V[0], '"c"']) if rng.random() < .9 else rng.choice(V)
+        if with_numbers and rng.random() < .08:
+            concept = rng.choice([0, 0.0, 7, -1.5])       # a hand-built graph may carry a number as a concept
         triples.append((v, ':instance', concept))
         if i:
             u = rng.choice(V[:i])
